@@ -72,20 +72,28 @@ NONDET = {'now', 'today', 'rand'}
 
 
 def alias_cases(rnd, aliases, per):
-    import datetime
-    pool = [0, 1, -1.5, 2.25, 9, 16, 0.5, 100, 3, 2, '', 'abc', 'Hello World', ' pad ', 'a,b', '12', '1.5e+3', 'l', 'b',
-            None, True, datetime.datetime(2024, 2, 29, 13, 14, 15, 16000), [1, 2]]
+    """arguments come from the aliased library function's own argument model (as in C12), biased towards
+    strings with repeated substrings so that first / last occurrence functions differ"""
+    from . import c12
+    rep = ['abcabc', 'aXbXc', 'b', 'X', 'c', 'bc', 'Hello World', 'l', 'o W', '']
     out = []
     for alias, lib in sorted(aliases.items()):
-        for _ in range(per):
-            args = [rnd.choice(pool) for _ in range(rnd.choice([0, 1, 1, 2, 2, 3]))]
+        fixed = [['abcabc', 'b'], ['abcabc', 'b', 2], ['aXbXc', 'X', 1], ['abcabc', 'c', 3], ['abcabc', 'bc', 4], [2.5], [-2.5], [7, 2], [2024, 2, 29],
+                 [1.005, 2], ['  pad  '], ['Ab'], [65, 98], ['ff', 16], ['1.5e3'], [9], [0.5]]
+        for k in range(per + len(fixed)):
+            if k < len(fixed):
+                args = list(fixed[k])
+            else:
+                args = c12.gen_args(rnd, lib)
+                args = [rnd.choice(rep) if isinstance(a, str) and not a.startswith('lib:') and rnd.random() < 0.7 else a for a in args]
+                args = [a for a in args if not (isinstance(a, str) and a.startswith('lib:'))]
             globs = [{'name': f'a{i}', 'val': A.aval(v)} for i, v in enumerate(args)]
             argv = [var(f'a{i}') for i in range(len(args))]
             c1 = expr_case(gen_jump.call(alias, *argv), globs, bi=True)
             c2 = script_case(gen_jump.call(lib, *argv), globs)
             out.append(({'alias': alias, 'lib': lib, 'r1': c1['fin']['ret'], 'r2': c2['fin']['ret'],
                          's1': c1['fin']['status'], 's2': c2['fin']['status'], 'nondet': alias in NONDET,
-                         'g1': c1['fin']['globals'], 'g2': {k: v for k, v in c2['fin']['globals'].items()},
+                         'g1': c1['fin']['globals'], 'g2': {k2: v for k2, v in c2['fin']['globals'].items()},
                          'args': [A.aval(v) for v in args]}, c1, c2))
     return out
 
@@ -169,7 +177,7 @@ def run(ctx, replay=None):
     F.judge(ctx, 'Trace_Core', cases, canaries, invariants=c08.INVS, describe=describe,
             key_fields=('kind', 'expr', 'model', 'globals'), nontrivial=lambda c: True)
     # alias clause
-    al = alias_cases(rnd, aliases, ctx.pick(6, 60))
+    al = alias_cases(rnd, aliases, ctx.pick(25, 300))
     F.judge(ctx, 'Trace_Alias', [a for a, _, _ in al], None, tag='alias', key_fields=('alias', 'args'),
             describe=lambda a: {'alias': a['alias'], 'library': a['lib'], 'args': a['args'], 'result': a['r1']})
     F.judge(ctx, 'Trace_Core', [c for _, c1, c2 in al for c in (c1, c2)], None, invariants=c08.INVS, tag='aliascore',
